@@ -270,7 +270,7 @@ func runC07(ctx *Ctx) {
 			case 2:
 				ops = append(ops, &POp{Op: "deposit", Wallet: []string{"w1", "w2"}[rng.Intn(2)], Amount: []string{"1", "100", "5000"}[rng.Intn(3)]})
 			default:
-				ops = append(ops, &POp{Op: "withdraw", Wallet: []string{"w1", "w1", "w2", "w3"}[rng.Intn(4)], Settle: rng.Intn(4) != 0})
+				ops = append(ops, &POp{Op: "withdraw", Wallet: []string{"w1", "w1", "w2", "w3", "w1~"}[rng.Intn(5)], Settle: rng.Intn(4) != 0})
 				if rng.Intn(2) == 0 { // immediate repeat
 					ops = append(ops, &POp{Op: "withdraw", Wallet: "w1", Settle: true})
 				}
